@@ -510,7 +510,7 @@ Print Assumptions c06_code_for_response.
     rule: the framing theorems of this file are therefore statements about the code as it is in the repository now
     (trusted: the translator).  A change of any clause of the rule changes Gen2.v and this equality no longer holds. *)
 From Hoot Require Import GenLib Gen2.
-From Hoot.proofs Require Import Gen2_equiv_framing.
+From Hoot.proofs Require Import Gen2_equiv_cmp Gen2_equiv_framing.
 Theorem c06_code_compare_lowercase : forall a l, gen_compare_lowercase_ascii a l = cmp_lower a l.
 Proof. exact gen_compare_lowercase_ascii_eq. Qed.
 Theorem c06_code_header_defined : forall http10 lk,
